@@ -48,6 +48,7 @@ func runC13(h *Harness) {
 	sc["delay_den"] = h.S.pDelayDen
 	h.S.pHoldDen, h.S.holdFor = Pick(tp, 0, 4, 8), Pick(tp, 2*time.Second, 10*time.Second) // tasks held back while they hold a lock
 	sc["hold_den"] = h.S.pHoldDen
+	h.S.stallSteps = Pick(tp, 0, 30, 300)
 	strict := fetch == "" // in background mode a strict validator legitimately denies until the fetch is done
 	w := NewWorld(h, WorldOpts{Intermediate: tp.Chance(1, 2)})
 	l1 := w.NewLocation(LocOpts{Name: "L1", URL: "http://crl.sim/a.crl", Issuer: w.A, NVers: 3, Extra: Pick(tp, 2, 20, 100), Width: 8})
